@@ -559,6 +559,21 @@ impl<'a> Interp<'a> {
         r
     }
 
+    /// Evaluates one expression with the given variable bindings (C07).
+    pub fn eval_with(&mut self, vars: &[(String, Val)], e: &Expr, ty: &Ty) -> Outcome {
+        let mut fr = Frame::default();
+        fr.vars = vars.to_vec();
+        match self.expr(&mut fr, e) {
+            Ok(v) | Err(Flow::Return(v)) => {
+                let mut out = vec![];
+                serialize(self.p, ty, &v, &mut out);
+                Outcome::Success(out)
+            }
+            Err(Flow::Panic(d)) => Outcome::Panic(d),
+            Err(Flow::OutOfFuel) => Outcome::Unknown,
+        }
+    }
+
     /// Runs the entry function on scalar arguments.
     pub fn run_entry(&mut self, args: &[BigInt]) -> Outcome {
         let f = &self.p.funcs[self.p.entry];
